@@ -39,7 +39,7 @@ def _required_keys_exprs(cls):
     return out
 
 
-def redundant_bypass(index, base, f, call):
+def redundant_bypass(index, base, f, call, COMPUTE="_compute"):
     """A direct `X._compute(arg)` skips `arg.check_keys_are(X.required_keys)`. It is redundant when the caller is the `_compute` of
     a transform S, `arg` is S._compute's own (never reassigned) parameter — which Transform.__call__ has just checked against
     S.required_keys — and S.required_keys equals X.required_keys for every instance of S:
@@ -47,7 +47,7 @@ def redundant_bypass(index, base, f, call):
       (B) X ranges over the collection stored by S.__init__, whose every path compares each member's required_keys with its own
           and raises ValueError on a difference (a loop without break/continue/return, or an any()/all() guard)."""
     S = f.cls
-    if S is None or base not in S.mro or f.name != "_compute" or f.parent is not None:
+    if S is None or base not in S.mro or f.name != COMPUTE or f.parent is not None:
         return "violated", "the caller is not the _compute of a transform (nothing has checked the dictionary)"
     params = [a.arg for a in f.node.args.args if a.arg not in ("self",)]
     if len(call.args) != 1 or call.keywords or not isinstance(call.args[0], ast.Name) or not params or call.args[0].id != params[0]:
@@ -141,7 +141,8 @@ def check(index, ctx):
     cfg = cfg_of(cfn.node)
     chk = cfg.nodes_containing(lambda x: isinstance(x, ast.Call) and isinstance(x.func, ast.Attribute) and x.func.attr == "check_keys_are"
                                and any("required_keys" in norm_text(a) for a in x.args))
-    comp = cfg.nodes_containing(lambda x: isinstance(x, ast.Call) and norm_text(x.func) == "self._compute")
+    COMPUTE = _pipe.compute_method_name(index)
+    comp = cfg.nodes_containing(lambda x: isinstance(x, ast.Call) and norm_text(x.func) == "self." + COMPUTE)
     ok = bool(chk) and bool(comp) and all(any(cfg.dominates(c, k) and c is not k for c in chk) for k in comp)
     ctx.require(ok, "R1", "Transform.__call__: key check dominates _compute", "check_keys_are(self.required_keys) precedes self._compute(input) on every path",
                 "self._compute can run without (or before) input.check_keys_are(self.required_keys)", cfn.loc())
@@ -153,7 +154,7 @@ def check(index, ctx):
         if fi.qualname == cfn.qualname:
             continue
         for n in ast.walk(fi.node):
-            if isinstance(n, ast.Call) and isinstance(n.func, ast.Attribute) and n.func.attr == "_compute" and index.function_of_node(n) is None:
+            if isinstance(n, ast.Call) and isinstance(n.func, ast.Attribute) and n.func.attr == COMPUTE and index.function_of_node(n) is None:
                 stray.append((fi, n))
     seen = set()
     stray = [(f, n) for f, n in stray if id(n) not in seen and not seen.add(id(n))]
@@ -186,7 +187,7 @@ def check(index, ctx):
     if not stray:
         ctx.ok("R1", "_compute is only called by Transform.__call__", "no direct call", base.loc())
     for f, n in stray:
-        verdict, why = redundant_bypass(index, base, f, n)
+        verdict, why = redundant_bypass(index, base, f, n, COMPUTE)
         k = f"{f.short}: `{norm_text(n)}` calls _compute directly"
         if verdict == "undecided" and f.cls is not None and accepts_mixed_members(f.cls) is True:
             verdict, why = "violated", (f"{f.cls.name}([t1, t2]) is built although t1 requires {{r,a,b}} and t2 requires {{s,a,b}}; applied to a dictionary with t1's keys, "
@@ -273,6 +274,111 @@ def check(index, ctx):
             okk = I.run_paths(lambda: I.getattr(c, "output_keys", Conj.node, None))[0].value
             ctx.require(isinstance(okk, SetV) and P.ops.atoms_of(okk) == frozenset(k for o in outs for k in o), "R2", "Conjunction: output_keys is the union of the members'",
                         "union", f"output_keys={okk!r}", Conj.loc())
+    # ------------------------------------------------------------------------------------------------ R2 nested terms
+    # Exhaustive small scope: every term of depth <= 2 over five Select leaves and the empty conjunction. The specification is
+    # evaluated on the term, the real constructors are executed abstractly on symbolic key sets, and both must agree on
+    # "is built" and on the declared keys.
+    LEAVES = [(("a",), ("a",)), (("b",), ("b",)), (("a",), ("a", "b")), (("b",), ("a", "b")), (("c",), ("a", "b", "c"))]
+
+    def spec(t):
+        """(valid, required, outputs) of a term ('S', keys, req) | ('J', [terms]) | ('C', outer, inner)."""
+        if t[0] == "S":
+            return set(t[1]) <= set(t[2]), frozenset(t[2]), frozenset(t[1])
+        if t[0] == "J":
+            subs = [spec(x) for x in t[1]]
+            if not all(v for v, _, _ in subs):
+                return False, None, None
+            reqs = {r for _, r, _ in subs}
+            outs = [o for _, _, o in subs]
+            disjoint = sum(len(o) for o in outs) == len(frozenset().union(*outs)) if outs else True
+            return len(reqs) <= 1 and disjoint, (next(iter(reqs)) if reqs else frozenset()), (frozenset().union(*outs) if outs else frozenset())
+        vo, ro, oo = spec(t[1])
+        vi, ri, oi = spec(t[2])
+        if not (vo and vi):
+            return False, None, None
+        return ro == oi, ri, oo
+
+    built_cache: dict = {}
+
+    def build(t):
+        """ObjV of a (valid) term, or None when the constructors reject it / 'unk' when the engine lost track."""
+        key = repr(t)
+        if key in built_cache:
+            return built_cache[key]
+        if t[0] == "S":
+            o = make_select(t[1], t[2])
+        else:
+            if t[0] == "J":
+                parts = [build(x) for x in t[1]]
+                cls_, args_ = Conj, None
+            else:
+                parts = [build(t[1]), build(t[2])]
+                cls_, args_ = Comp, None
+            if any(p_ is None or p_ == "unk" for p_ in parts):
+                o = "unk" if any(p_ == "unk" for p_ in parts) else None
+                built_cache[key] = o
+                return o
+            args_ = [ListV(items=tuple(parts), kind="list")] if t[0] == "J" else parts
+            res_ = I.run_paths(lambda: I.instantiate(cls_, args_, {}, cls_.node, None))
+            if any(e["kind"] in ("unknown", "unknown_call") for r in res_ for e in r.events):
+                o = "unk"
+            else:
+                rets = [r.value for r in res_ if r.kind == "return"]
+                rais = [r for r in res_ if r.kind == "raise"]
+                o = "unk" if (rets and rais) else (rets[0] if rets else None)
+        built_cache[key] = o
+        return o
+
+    leaves = [("S", k_, r_) for k_, r_ in LEAVES]
+    level1 = [("J", [])] + [("J", [x]) for x in leaves] + [("J", [x, y]) for x in leaves for y in leaves] + [("C", x, y) for x in leaves for y in leaves]
+    pool = leaves + [t for t in level1 if spec(t)[0]]
+    level2 = [("J", [x, y]) for x in pool for y in pool if x[0] != "S" or y[0] != "S"] + [("C", x, y) for x in pool for y in pool if x[0] != "S" or y[0] != "S"]
+    level2 += [("J", [x, y, z]) for x in leaves[:3] for y in leaves[:4] for z in leaves]
+    n_terms = n_bad = n_unk = 0
+    for t in level1 + level2:
+        valid, req, outs = spec(t)
+        # only terms whose parts are all valid are constructible at all
+        parts_ok = all(spec(x)[0] for x in (t[1] if t[0] == "J" else t[1:]))
+        if not parts_ok:
+            continue
+        n_terms += 1
+        o = build(t)
+
+        def show(t):
+            if t[0] == "S":
+                return f"Select({'+'.join(t[1])} | {'+'.join(t[2])})"
+            if t[0] == "J":
+                return "Conjunction([" + ", ".join(show(x) for x in t[1]) + "])"
+            return f"({show(t[1])} << {show(t[2])})"
+
+        if o == "unk":
+            n_unk += 1
+            if n_unk <= 2:
+                ctx.undecided("R2", f"nested term {show(t)}", "the abstract execution of the constructors lost track of a key set", Conj.loc())
+            continue
+        if (o is not None) != valid:
+            n_bad += 1
+            if n_bad <= 3:
+                ctx.violated("R2", f"nested terms: {show(t)} is {'built' if o is not None else 'rejected'}",
+                             f"by the documented rules this term is {'well-formed (required ' + str(sorted(req)) + ', outputs ' + str(sorted(outs)) + ')' if valid else 'ill-formed'}, "
+                             f"but its constructor {'accepts' if o is not None else 'rejects'} it", (Conj if t[0] == "J" else Comp).loc())
+            continue
+        if valid:
+            rk = I.run_paths(lambda: I.getattr(o, "required_keys", Conj.node, None))[0].value
+            okk = I.run_paths(lambda: I.getattr(o, "output_keys", Conj.node, None))[0].value
+            got_r = P.ops.atoms_of(rk) if isinstance(rk, SetV) and rk.items is None else (frozenset() if isinstance(rk, SetV) and not rk.items else None)
+            got_o = P.ops.atoms_of(okk) if isinstance(okk, SetV) and okk.items is None else (frozenset() if isinstance(okk, SetV) and not okk.items else None)
+            if got_r is None or got_o is None:
+                n_unk += 1
+                continue
+            if got_r != req or got_o != outs:
+                n_bad += 1
+                if n_bad <= 3:
+                    ctx.violated("R2", f"nested terms: declared keys of {show(t)}", f"declares required {sorted(got_r)} / outputs {sorted(got_o)}, documented: required {sorted(req)} / outputs {sorted(outs)}",
+                                 (Conj if t[0] == "J" else Comp).loc())
+    if n_bad == 0 and n_unk == 0:
+        ctx.ok("R2", f"nested terms: {n_terms} terms of depth <= 2 (5 Select leaves, empty conjunction)", "constructors accept exactly the well-formed terms and declare the documented keys", Conj.loc())
+    ctx.floor("nested transform terms enumerated", n_terms, 300)
     # ------------------------------------------------------------------------------------------------ R4
     dict_types = [c for c in index.classes.values() if td in c.mro]
     lca = index.find_function(f"{T}.tensor_dict._least_common_ancestor")
@@ -331,24 +437,38 @@ def check(index, ctx):
             x.func.attr == name or (isinstance(x.func.value, ast.Name) and x.func.value.id in ("self", "cls") and x.func.attr in td.methods and x.func.attr != "__init__"
                                     and always_calls(td.methods[x.func.attr], name))))
 
-    cd = covering("_check_dict")
-    cp = covering("_check_all_pairs")
+    # hook roles, by what the classes do (not by their names): a hook is a TensorDict method that a typed subclass overrides;
+    # the per-pair hook takes (key, value), the dictionary-level hook takes the mapping; the all-pairs driver is the TensorDict
+    # method that loops over items() calling the per-pair hook
+    def n_params(f):
+        return len([a for a in f.node.args.args if a.arg not in ("self", "cls")])
+
+    overridden = {n for sub in index.subclasses(td) for n in list(sub.methods) + list(sub.class_attrs) if n in td.methods and not n.startswith("__")}
+    PAIR = sorted(n for n in overridden if n_params(td.methods[n]) == 2)
+    DICT = sorted(n for n in overridden if n_params(td.methods[n]) == 1)
+    if len(PAIR) != 1 or len(DICT) != 1:
+        raise AnalysisError(f"anchor vanished: TensorDict hooks (per-pair candidates {PAIR}, dictionary-level candidates {DICT})")
+    PAIR, DICT = PAIR[0], DICT[0]
+    ALLPAIRS = next((n for n, f in td.methods.items() if n not in overridden and n != "__init__" and any(
+        isinstance(l, ast.For) and any(isinstance(x, ast.Call) and isinstance(x.func, ast.Attribute) and x.func.attr == PAIR for x in ast.walk(l)) for l in ast.walk(f.node))), None)
+    cd = covering(DICT)
+    cp = covering(ALLPAIRS) if ALLPAIRS is not None else []
     # the per-pair loop may be written in __init__ itself: `for key, value in <mapping>.items(): self._check_key_value_pair(key, value)` without early exit
     for n_ in c.nodes:
         a_ = n_.ast
         if isinstance(a_, ast.For) and "items" in norm_text(a_.iter) and not any(isinstance(x, (ast.Break, ast.Return, ast.Continue)) for x in ast.walk(a_)) \
-                and any(isinstance(x, ast.Call) and isinstance(x.func, ast.Attribute) and x.func.attr == "_check_key_value_pair" for x in ast.walk(a_)):
+                and any(isinstance(x, ast.Call) and isinstance(x.func, ast.Attribute) and x.func.attr == PAIR for x in ast.walk(a_)):
             cp = list(cp) + [n_]
     ok = bool(sup) and all(any(c.dominates(x, s) for x in cd) and any(c.dominates(x, s) for x in cp) for s in sup)
-    ctx.require(ok, "R6", "TensorDict.__init__: checks dominate the store", "_check_dict and _check_all_pairs run on every path before super().__init__",
-                "a path reaches super().__init__(...) without running _check_dict / _check_all_pairs: a dictionary can exist with values whose shapes contradict its type", ini[1].loc())
-    ap = td.lookup("_check_all_pairs")
+    ctx.require(ok, "R6", "TensorDict.__init__: checks dominate the store", f"{DICT} and the per-pair check ({ALLPAIRS or PAIR}) run on every path before super().__init__",
+                f"a path reaches super().__init__(...) without running {DICT} / the check of every pair: a dictionary can exist with values whose shapes contradict its type", ini[1].loc())
+    ap = td.lookup(ALLPAIRS) if ALLPAIRS is not None else None
     if ap is not None:
         loops = [n for n in ast.walk(ap[1].node) if isinstance(n, ast.For)]
         good = len(loops) == 1 and "items" in norm_text(loops[0].iter) and not any(isinstance(x, (ast.Break, ast.Return, ast.Continue)) for x in ast.walk(loops[0])) and \
-            any(isinstance(x, ast.Call) and isinstance(x.func, ast.Attribute) and x.func.attr == "_check_key_value_pair" for x in ast.walk(loops[0]))
-        ctx.require(good, "R6", "TensorDict._check_all_pairs visits every item", "loop over items() without early exit", "the per-pair check does not visit every (key, value) pair", ap[1].loc())
-    for hf in [f for f in td.module.functions.values() if f.name.startswith("_check")]:
+            any(isinstance(x, ast.Call) and isinstance(x.func, ast.Attribute) and x.func.attr == PAIR for x in ast.walk(loops[0]))
+        ctx.require(good, "R6", "TensorDict: the all-pairs driver visits every item", "loop over items() without early exit", "the per-pair check does not visit every (key, value) pair", ap[1].loc())
+    for hf in [f for f in td.module.functions.values() if any(isinstance(x, ast.Raise) and "ValueError" in norm_text(x) for x in ast.walk(f.node))]:
         for comp in [n for n in ast.walk(hf.node) if isinstance(n, (ast.ListComp, ast.SetComp, ast.GeneratorExp, ast.DictComp))]:
             filt = [g for g in comp.generators if g.ifs]
             ctx.require(not filt, "R6", f"{hf.short}: `{norm_text(comp)[:70]}` considers every value", "no filter in the comprehension",
@@ -356,7 +476,7 @@ def check(index, ctx):
         for loop in [n for n in ast.walk(hf.node) if isinstance(n, ast.For)]:
             if any(isinstance(x, ast.Continue) for x in ast.walk(loop)):
                 ctx.violated("R6", f"{hf.short}: loop skips some values", "`continue` inside a shape check", hf.loc(loop))
-    typed = {"Gradients": ["_check_key_value_pair"], "Jacobians": ["_check_dict", "_check_key_value_pair"], "GradientVectors": ["_check_key_value_pair"], "JacobianMatrices": ["_check_dict", "_check_key_value_pair"]}
+    typed = {"Gradients": [PAIR], "Jacobians": [DICT, PAIR], "GradientVectors": [PAIR], "JacobianMatrices": [DICT, PAIR]}
     for cname, hooks in typed.items():
         cls = index.find_class(f"{T}.tensor_dict.{cname}")
         if cls is None:
